@@ -116,7 +116,24 @@ func checkFileOrder(p *Program, r *Result) {
 				}
 			case onField(args[0], "chunkIndexes") && len(args) >= 2 && poss[0]:
 				nChunkSort++
-				f, op, why := lessShape(closureOf(args[1]))
+				var cfn *ssa.Function = closureOf(args[1])
+				swapped := false
+				if cs := factoryCases(closureOfValue(args[1])); len(cs) > 0 {
+					cfn = nil
+					for _, c := range cs {
+						if c.order == 0 {
+							cfn, swapped = c.fn, c.swapped
+						}
+					}
+					if cfn == nil {
+						r.violated("C02.f", funcName(m), "chunk order in file order", p.pos(ci.Pos()), "the comparator factory has no case for FileOrder; in file order chunks would be visited in summary order")
+						continue
+					}
+				}
+				f, op, why := lessShape(cfn)
+				if swapped {
+					op = map[string]string{"<": ">", ">": "<"}[op]
+				}
 				construct := "chunk order in file order"
 				switch {
 				case why != "":
